@@ -245,7 +245,7 @@ fn encode_block(
                         compression_method: CompressionMethod::Fqzcomp,
                         content_type,
                         content_id: block_content_id,
-                        uncompressed_size: data.len(),
+                        uncompressed_size: src.len(),
                         src: data,
                     })
                 } else {
